@@ -217,6 +217,17 @@ func decodeStructValue(field reflect.Value, fieldType reflect.StructField, value
 		}
 		field.SetInt(int64(value))
 		return nil
+	case reflect.Uint:
+		if value == "" {
+			field.SetUint(0)
+			return nil
+		}
+		value, err := strconv.ParseUint(value, 10, 0)
+		if err != nil {
+			return err
+		}
+		field.SetUint(value)
+		return nil
 	case reflect.Slice:
 		return decodeStructValueSlice(field, fieldType, value)
 	case reflect.Struct:
